@@ -482,4 +482,183 @@ theorem exact_groupOK (c : Ctx) (segs : List Seg) (g : Group) (he : g.exp = .exa
   · simp [hf, List.any_eq_true]
   · simp [hf, List.any_eq_true]
 
+/-! ## matcher tree against the documented semantics -/
+
+theorem docPasses_eq {s : Seg} {o : Nat} {d : ADoc} (hd : s.docs[o]? = some d) (fs : List Flt) :
+    docPasses s o fs = Flt.passesAll d fs := by
+  unfold docPasses; rw [hd]
+
+theorem length_filter_pos_eq_any {α : Type} (l : List α) (p : α → Bool) :
+    decide ((l.filter p).length ≥ 1) = l.any p := by
+  induction l with
+  | nil => simp
+  | cons x xs ih =>
+    cases hx : p x with
+    | true => simp [List.filter, hx]
+    | false => simpa [List.filter, hx] using ih
+
+/-- shape of the `QueryString` matcher arm against its declarative form -/
+theorem qs_shape {α β : Type} (ts ns : List α) (ps : List β) (gm gn : α → Bool) (pm : β → Bool) (k : Nat) :
+    (if (ts.isEmpty && ps.isEmpty && ns.isEmpty) = true then false
+      else if ns.any gn = true then false
+      else if (!(ps.all pm)) = true then false
+      else if ts.isEmpty = true then true
+      else decide ((ts.filter gm).length ≥ k)) =
+    (!(ts.isEmpty && ps.isEmpty && ns.isEmpty) && ns.all (fun x => !gn x) && ps.all pm &&
+      (ts.isEmpty || decide (k ≤ (ts.filter gm).length))) := by
+  have hn : ns.all (fun x => !gn x) = !(ns.any gn) := by
+    induction ns with
+    | nil => rfl
+    | cons x xs ih => simp [ih]
+  rw [hn]
+  cases h1 : (ts.isEmpty && ps.isEmpty && ns.isEmpty) <;> cases h2 : ns.any gn <;>
+    cases h3 : ps.all pm <;> cases h4 : ts.isEmpty <;> simp
+
+theorem groupsList_planList_mem {c : Ctx} {sc : Bool} {qs : List Q} {q : Q} (hq : q ∈ qs) {g : Group}
+    (hg : g ∈ (plan c sc q).groups) : g ∈ Matcher.groupsList (planList c sc qs) := by
+  induction qs with
+  | nil => cases hq
+  | cons x xs ih =>
+    simp only [planList, Matcher.groupsList, List.mem_append]
+    rcases List.mem_cons.mp hq with rfl | hq
+    · exact Or.inl hg
+    · exact Or.inr (ih hq)
+
+theorem length_planList (c : Ctx) (sc : Bool) : ∀ (qs : List Q), (planList c sc qs).length = qs.length
+  | [] => by simp [planList]
+  | q :: qs => by simp [planList, length_planList c sc qs]
+
+section Eval
+variable (c : Ctx) {segs : List Seg} {s : Seg} (hs : s ∈ segs) {o : Nat} {d : ADoc}
+  (hd : s.docs[o]? = some d)
+include hs hd
+
+mutual
+/-- `matches_node` on the planned matcher = the documented semantics of the query, provided the
+expansions of its term groups are complete -/
+theorem evalM_plan : ∀ (q : Q) (sc : Bool),
+    (∀ g ∈ (plan c sc q).groups, GroupOK c segs g) →
+      evalM c segs s o (plan c sc q) = Spec.matchesQ c d sc q
+  | .matchAll, sc, _ => by simp [plan, evalM, Spec.matchesQ]
+  | .term f v, sc, h => by
+    simp only [plan, evalM, Spec.matchesQ]
+    exact groupMatches_eq c hs hd (h _ (by simp [plan, Matcher.groups]))
+  | .pfx f v cap, sc, h => by
+    simp only [plan, evalM, Spec.matchesQ]
+    exact groupMatches_eq c hs hd (h _ (by simp [plan, Matcher.groups]))
+  | .wildcard f v cap, sc, h => by
+    simp only [plan, evalM, Spec.matchesQ]
+    exact groupMatches_eq c hs hd (h _ (by simp [plan, Matcher.groups]))
+  | .regex f v cap, sc, h => by
+    simp only [plan, evalM, Spec.matchesQ]
+    exact groupMatches_eq c hs hd (h _ (by simp [plan, Matcher.groups]))
+  | .phrase f ts slop, sc, _ => by
+    simp only [plan, evalM, Spec.matchesQ]
+    exact phraseMatches_eq c hd _
+  | .queryString q fields, sc, h => by
+    simp only [plan, evalM, Spec.matchesQ, Option.getD_none]
+    rw [qs_shape]
+    simp only [plan, Matcher.groups, List.mem_append, List.mem_map] at h
+    simp only [List.isEmpty_map, List.all_map, List.filter_map, List.length_map]
+    have hterm : ∀ t ∈ (parseQuery q).terms,
+        groupMatches c segs s o (termGroup (baseFields c fields) sc t) =
+          Spec.group c d (termGroup (baseFields c fields) sc t) :=
+      fun t ht => groupMatches_eq c hs hd (h _ (Or.inl ⟨t, ht, rfl⟩))
+    have hnot : ∀ t ∈ (parseQuery q).notTerms,
+        groupMatches c segs s o (termGroup (baseFields c fields) false t) =
+          Spec.group c d (termGroup (baseFields c fields) false t) :=
+      fun t ht => groupMatches_eq c hs hd (h _ (Or.inr ⟨t, ht, rfl⟩))
+    congr 1
+    · congr 1
+      · congr 1
+        rw [Bool.eq_iff_iff, List.all_eq_true, List.all_eq_true]
+        constructor
+        · intro hh t ht; have := hh t ht; simp only [Function.comp] at this; rw [← hnot t ht]; exact this
+        · intro hh t ht; have := hh t ht; simp only [Function.comp]; rw [hnot t ht]; exact this
+      · apply List.all_congr rfl
+        intro ph
+        simp only [Function.comp]
+        exact phraseMatches_eq c hd _
+    · congr 1
+      have hfl : (List.filter ((fun g => groupMatches c segs s o g) ∘ termGroup (baseFields c fields) sc) (parseQuery q).terms) =
+          List.filter (fun t => Spec.group c d (termGroup (baseFields c fields) sc t)) (parseQuery q).terms := by
+        apply List.filter_congr
+        intro t ht
+        simp only [Function.comp]
+        exact hterm t ht
+      rw [hfl]
+      have := length_filter_pos_eq_any (parseQuery q).terms
+        (fun t => Spec.group c d (termGroup (baseFields c fields) sc t))
+      simpa using this
+  | .multiMatch q fields ty opAnd msm, sc, h => by
+    simp only [plan, evalM, Spec.matchesQ]
+    rw [qs_shape]
+    simp only [plan, Matcher.groups, List.mem_append, List.mem_map] at h
+    simp only [List.isEmpty_map, List.all_map, List.filter_map, List.length_map]
+    have hterm : ∀ t ∈ (parseQuery q).terms,
+        groupMatches c segs s o (mmGroup fields sc t) = Spec.group c d (mmGroup fields sc t) :=
+      fun t ht => groupMatches_eq c hs hd (h _ (Or.inl ⟨t, ht, rfl⟩))
+    have hnot : ∀ t ∈ (parseQuery q).notTerms,
+        groupMatches c segs s o (mmGroup fields false t) = Spec.group c d (mmGroup fields false t) :=
+      fun t ht => groupMatches_eq c hs hd (h _ (Or.inr ⟨t, ht, rfl⟩))
+    congr 1
+    · congr 1
+      · congr 1
+        rw [Bool.eq_iff_iff, List.all_eq_true, List.all_eq_true]
+        constructor
+        · intro hh t ht; have := hh t ht; simp only [Function.comp] at this; rw [← hnot t ht]; exact this
+        · intro hh t ht; have := hh t ht; simp only [Function.comp]; rw [hnot t ht]; exact this
+      · apply List.all_congr rfl
+        intro ph
+        simp only [Function.comp]
+        exact phraseMatches_eq c hd _
+    · have hfl : (List.filter ((fun g => groupMatches c segs s o g) ∘ mmGroup fields sc) (parseQuery q).terms) =
+          List.filter (fun t => Spec.group c d (mmGroup fields sc t)) (parseQuery q).terms := by
+        apply List.filter_congr
+        intro t ht
+        simp only [Function.comp]
+        exact hterm t ht
+      rw [hfl]
+  | .disMax qs, sc, h => by
+    simp only [plan, evalM, Spec.matchesQ]
+    exact evalAny_planList qs sc (by simpa [plan, Matcher.groups] using h)
+  | .bool must should mustNot filter msm, sc, h => by
+    simp only [plan, evalM, Spec.matchesQ]
+    simp only [plan, Matcher.groups, List.mem_append] at h
+    rw [evalAll_planList must sc (fun g hg => h g (Or.inl (Or.inl hg))),
+      evalAny_planList mustNot false (fun g hg => h g (Or.inr hg)),
+      evalCount_planList should sc (fun g hg => h g (Or.inl (Or.inr hg))),
+      docPasses_eq hd, length_planList, length_planList]
+  | .constantScore f, sc, _ => by
+    simp only [plan, evalM, Spec.matchesQ, evalAll, evalAny, evalCount]
+    rw [docPasses_eq hd]
+    simp [Flt.passesAll, defaultMinShould]
+theorem evalAll_planList : ∀ (qs : List Q) (sc : Bool),
+    (∀ g ∈ Matcher.groupsList (planList c sc qs), GroupOK c segs g) →
+      evalAll c segs s o (planList c sc qs) = Spec.matchesAll c d sc qs
+  | [], _, _ => by simp [planList, evalAll, Spec.matchesAll]
+  | q :: qs, sc, h => by
+    simp only [planList, Matcher.groupsList, List.mem_append] at h
+    simp only [planList, evalAll, Spec.matchesAll]
+    rw [evalM_plan q sc (fun g hg => h g (Or.inl hg)), evalAll_planList qs sc (fun g hg => h g (Or.inr hg))]
+theorem evalAny_planList : ∀ (qs : List Q) (sc : Bool),
+    (∀ g ∈ Matcher.groupsList (planList c sc qs), GroupOK c segs g) →
+      evalAny c segs s o (planList c sc qs) = Spec.matchesAny c d sc qs
+  | [], _, _ => by simp [planList, evalAny, Spec.matchesAny]
+  | q :: qs, sc, h => by
+    simp only [planList, Matcher.groupsList, List.mem_append] at h
+    simp only [planList, evalAny, Spec.matchesAny]
+    rw [evalM_plan q sc (fun g hg => h g (Or.inl hg)), evalAny_planList qs sc (fun g hg => h g (Or.inr hg))]
+theorem evalCount_planList : ∀ (qs : List Q) (sc : Bool),
+    (∀ g ∈ Matcher.groupsList (planList c sc qs), GroupOK c segs g) →
+      evalCount c segs s o (planList c sc qs) = Spec.matchesCount c d sc qs
+  | [], _, _ => by simp [planList, evalCount, Spec.matchesCount]
+  | q :: qs, sc, h => by
+    simp only [planList, Matcher.groupsList, List.mem_append] at h
+    simp only [planList, evalCount, Spec.matchesCount]
+    rw [evalM_plan q sc (fun g hg => h g (Or.inl hg)), evalCount_planList qs sc (fun g hg => h g (Or.inr hg))]
+end
+
+end Eval
+
 end SL.Query
